@@ -389,6 +389,23 @@ def special_statements():
         ("interval", "select a + interval '1' day from t"), ("array-lit", "insert into w select array[a, b] from t"),
         ("insert-select-alias-list", "insert into w (x, y) select a, b from t as q (a, b)"),
     ]
+    # UPDATE / MERGE / CREATE ... LIKE spellings around the places where the extractors take "the first write table" or "the table
+    # after the keyword" (update.py, merge.py, sqlparse handlers/target.py)
+    S += [
+        ("update-only", "update only t set a = s.b from s"), ("update-only-star", "update only t * set a = 1"),
+        ("update-no-target", "update set a = b"), ("update-subq-target", "update (select a from t) x set a = 1"),
+        ("update-join-mysql", "update t1 a join t2 b on a.k = b.k set a.x = b.y"), ("update-comma-mysql", "update t1 a, t2 b set a.x = b.y where a.k = b.k"),
+        ("update-set-tuple", "update t set (a, b) = (select x, y from s)"), ("update-from-subq", "update t set a = q.b from (select b, k from s) q where t.k = q.k"),
+        ("merge-into-literal", "merge into 1 using s on x when matched then update set a = s.b"),
+        ("merge-no-using", "merge into t when matched then update set a = 1"),
+        ("merge-two-inserts", "merge into t using s on t.k = s.k when not matched and s.f = 1 then insert (a, b) values (s.x, s.y) "
+                              "when not matched then insert (b, a) values (s.x, s.y)"),
+        ("merge-delete", "merge into t using s on t.k = s.k when matched then delete"),
+        ("create-like-literal", "create table tab1 like 1"), ("create-like-string", "create table tab1 like 'tab2'"),
+        ("insert-eq", "insert into tab1 = 1"), ("create-clone-literal", "create table tab1 clone 1"),
+        ("copy-local", "copy t from local '/tmp/f.csv' delimiter ','"), ("copy-stdin", "copy t from stdin"),
+        ("insert-overwrite-dir", "insert overwrite directory '/tmp/out' select a from t"),
+    ]
     # statements of an unsupported type (the message of UnsupportedStatementException / of the silent-mode warning is built from
     # the statement text: formatting metacharacters in it must not matter)
     S += [(f"unsupported-{i}", u) for i, u in enumerate(UNSUPPORTED_CANDIDATES)]
